@@ -216,6 +216,9 @@ class Contract:
                 env[n] = SV(env[n].k, env[n].t, cls=spec.split(":", 1)[1])
             elif spec == "int" and env[n].k != "int":
                 env[n] = sv_int(eng.as_int(env[n], st, "argument %s of %s" % (n, self.short())))
+            elif spec.startswith("pb:") and env[n].k == "pbsub":
+                st.oblige("safety.submessage_present(argument %s of %s)" % (n, self.short()), is_VRef(env[n].t))
+                env[n] = SV("ref", ref(env[n].t), cls=spec)
             elif spec == "blob" and env[n].k != "blob":
                 from .iomodel import as_blob
                 env[n] = SV("blob", as_blob(eng, env[n], st, "argument %s of %s" % (n, self.short())))
@@ -356,6 +359,7 @@ class Contract:
         from .core import serial_mark
         st.entry_serial = serial_mark()
         pre_assumptions = st.assumptions()
+        pre_alone = list(st.pc)          # the precondition without the (definitional, universally quantified) axioms
         # execute
         eng.cur_fn = fi
         eng.cur_target = self.target + (("[" + self.variant + "]") if getattr(self, "variant", None) else "")
@@ -478,6 +482,8 @@ class Contract:
             raise Unsupported("no paths through %s" % self.target)
         # vacuity guard: the precondition must be satisfiable (cover obligation)
         obls.append(Obligation("cover.pre", pre_assumptions, z3.BoolVal(True), kind="cover"))
+        if len(pre_alone) != len(pre_assumptions):
+            obls.append(Obligation("cover.pre_without_axioms", pre_alone, z3.BoolVal(True), kind="cover"))
         eng.cur_contract = None
         return obls
 
